@@ -45,6 +45,10 @@ def scenarios(tier):
   out.append(('mux 1 endpoint, 3 calls, a tag above 65535 next to tag 2',
               {'stack': 'mux', 'endpoints': 1, 'ops': [('call', 'g0', 0.2025), ('call', 'g1'), ('call', 'g2')],
                'faults': ['drop'], 'timeout': 0.5025, 'tag_jump': [2, 65538]}))
+  # a server that honours Tdiscarded (acknowledges with Rdiscarded and never sends the reply): the tag is used again at once
+  out.append(('mux 1 endpoint, the server acknowledges discards; a timed-out call\'s tag is used again while another call times out',
+              {'stack': 'mux', 'endpoints': 1, 'ops': [('call', 'a1', 0.1025), ('call', 'a2', 0.2025), ('at', 0.15), ('call', 'b0')],
+               'faults': ['drop'], 'timeout': 0.5025, 'peer_script': {'ack_discards': True}, '_bound': 3}))
   if tier == 'thorough':
     out.append(('thrift pooled connection, split replies',
                 {'stack': 'thrift', 'endpoints': 1, 'ops': [('call', 's0', 0.1025), ('call', 's1')],
